@@ -1,4 +1,5 @@
 """C05 - gamma = 1 - observed/expected over exactly the requested chance samples."""
+import contextlib
 import math
 
 import numpy as np
@@ -20,7 +21,7 @@ RULE = ("seeded random small continua (2-4 annotators, labelled) x n_samples 1..
         "default-sampler computations running concurrently in two user threads on disjoint continua; first batches of "
         "257-520 samples with a precision level; sessions with an edit of the continuum object (add_annotator, merge of a unit-less annotator, add, remove, "
         "reset_bounds) between two computations; a quarter of the computations run with cylp not importable or with CBC failing (always / every "
-        "third call) while every alignment is recomputed afterwards under the normal configuration; one case in seven has one alignment job of the "
+        "third call) while every alignment is recomputed afterwards under the normal configuration; a fifth of the computations with a precision level run with the library's progress messages switched on and a log handler that takes 2 - 30 ms per record; one case in seven has one alignment job of the "
         "computation find no usable solver at all (a refusal is accepted, a reported gamma is judged like any other). "
         "non-trivial = every case (>= 1 sample); distinct by SHA-1 of the case")
 ASSUMPTIONS = [
@@ -223,6 +224,30 @@ def check_gamma(ctx, case, continuum, dissim, sampler, res, gt):
                 ctx.fail("gamma-not-1-for-identical-annotators", {"gamma": g, "observed": obs}, monitor="M-GAMMA-IDENTICAL")
 
 
+@contextlib.contextmanager
+def _slow_logging(delay):
+    """The application has switched the library's progress messages on (INFO) and its log handler is slow (a file on a network
+    share, a GUI console): every record costs `delay` seconds in the thread that emits it."""
+    if not delay:
+        yield
+        return
+    import logging
+    import time as _t
+
+    class Slow(logging.Handler):
+        def emit(self, record):
+            _t.sleep(delay)
+    root = logging.getLogger()
+    h, old = Slow(level=logging.INFO), root.level
+    root.addHandler(h)
+    root.setLevel(logging.INFO)
+    try:
+        yield
+    finally:
+        root.removeHandler(h)
+        root.setLevel(old)
+
+
 def _gt_form(gt, form):
     """The ground-truth annotators in one of the forms an 'iterable of annotators' can take."""
     gt = list(gt)
@@ -256,7 +281,7 @@ def run_gamma(case, continuum, dissim, precision):
     on = {"one": 1, "npbool": np.bool_(True)}.get(at.get("on"), True)
     # solver configuration in force during the computation (cylp not importable / CBC failing always or now and then); the
     # post-condition recomputes every alignment afterwards under the normal configuration
-    with ac.solver_config(ac.setup(None)[0], case.get("backend", "cbc")):
+    with ac.solver_config(ac.setup(None)[0], case.get("backend", "cbc")), _slow_logging(case.get("slow_logging")):
         res = continuum.compute_gamma(dissim, n_samples=case["n_samples"], precision_level=precision,
                                       ground_truth_annotators=None if gt is None else _gt_form(gt, at.get("gt")), sampler=sampler,
                                       fast=on if case["mode"] == "fast" else off, soft=on if case["mode"] == "soft" else off)
@@ -437,6 +462,8 @@ def gen_case(ctx, dspecs):
             "np_seed": rng.randrange(2 ** 31), "identical": identical}
     if target:
         case["target_N"] = target
+    if precision is not None and rng.random() < 0.2:
+        case["slow_logging"] = rng.choice([0.002, 0.01, 0.03])
     case["backend"] = rng.choice(["cbc", "cbc", "cbc", "glpk", "cbcfail", "cbcfail3", "onejobfails" + str(rng.randint(2, 4))])
     case["arg_types"] = {"precision": rng.choice(["float", "float", "float64", "float32"]),
                          "off": rng.choice(["false", "false", "none", "zero", "npbool"]), "on": rng.choice(["true", "true", "one", "npbool"]),
@@ -501,6 +528,14 @@ def run(ctx):
                             {"ground_truth": None, "n_samples": 2, "precision": None, "mode": mode0, "np_seed": 61 + k0, "edit": op0}]}
         ctx.begin_case(case)
         ctx.observe("mode", "deterministic-first-block(edit between two computations)")
+        check_case(ctx, case)
+    # ... progress messages switched on with a slow log handler, together with a precision level
+    for k0 in range(2):
+        cs0 = cases.gen_continuum(rng, n_annot=3, sizes=[3, 4, 3], family="grid", labels=cases.LABELS_SMALL)
+        case = {"continuum": cs0, "dissim": comb0, "n_samples": 8, "precision": "auto", "target_N": 14.0, "sampler": ["statistical", "shuffle_float"][k0],
+                "mode": "exact", "ground_truth": None, "np_seed": 81 + k0, "identical": False, "slow_logging": 0.03}
+        ctx.begin_case(case)
+        ctx.observe("mode", "deterministic-first-block(slow log handler)")
         check_case(ctx, case)
     # ... one alignment job of the computation finds no usable solver (no precision level: nothing may be topped up silently)
     for k0 in range(4):
